@@ -1,4 +1,5 @@
 import IceModel.Prio
+import IceModel.SoftFloat
 /-!
 # AgentCore — executable model of one ICE agent (agent.go, selection.go, candidatepair.go,
 candidate_base.go (receive path), transport.go)
@@ -11,11 +12,14 @@ Go pointer.  The transition rules are DESIGN.md Appendix A (read from the code a
 Scope of this version: UDP and TCP candidates (udp4/udp6/tcp4/tcp6, any `tcptype`) of all four types, full
 and lite agents, both roles, role conflict, prflx discovery and supersession, remote IP filter, the
 TCP-active filter of the public `AddRemoteCandidate`, passive remote candidates (stored, not paired with the
-locals present), renomination (`RenominateCandidate` with an explicit value), Restart, Close, the
-connectivity-check timer, the data plane.  Not modelled: active TCP dialling (`addRemotePassiveTCPCandidate`
-creates one active local candidate per local interface address — the harness agents have no interfaces),
-TCP framing (a candidate's conn is a `net.PacketConn` either way), mDNS, automatic renomination (RTT floats),
-the application binding-request handler, gathering (see IceModel.Gather).
+locals present), renomination (`RenominateCandidate` with an explicit value), AUTOMATIC renomination
+(`WithAutomaticRenomination`: `keepAliveCandidatesForRenomination`, `checkForAutomaticRenomination`,
+`findBestCandidatePair`, `shouldRenominate`, `evaluateCandidatePairQuality` — the float64 arithmetic bit for bit through
+`IceModel.SoftFloat`; the nomination-value generator is a counter: `nomCounter`), a pair's current round-trip time and
+last-response time, Restart, Close, the connectivity-check timer, the data plane.  Not modelled: active TCP dialling
+(`addRemotePassiveTCPCandidate` creates one active local candidate per local interface address — the harness agents
+have no interfaces), TCP framing (a candidate's conn is a `net.PacketConn` either way), mDNS, the application
+binding-request handler, gathering (see IceModel.Gather).
 -/
 namespace IceModel.AgentCore
 
@@ -113,7 +117,16 @@ structure Pair where
   gNomReq : Bool := false   -- … carrying USE-CANDIDATE or a nomination value
   gResp : Bool := false     -- an authenticated, transaction-matched success response arrived on it
   gRespUC : Bool := false   -- … answering a request that carried USE-CANDIDATE
+  /-- `currentRoundTripTime` (ns): virtual time between the emission of the request and the processing of the response
+  that was matched last (`UpdateRoundTripTime`); 0 = none yet (or a response in the same instant) -/
+  rtt : Nat := 0
+  /-- `lastResponseReceivedAt` -/
+  lastResp : Option Nat := none
   deriving DecidableEq, Repr, Inhabited
+
+/-- `ResponsesReceived` + `UpdateRoundTripTime(rtt)` with `rtt = now - ts` (`ts` = emission time of the matched request) -/
+def Pair.gotResponse (now ts : Nat) (p : Pair) : Pair :=
+  { p with respRecv := p.respRecv + 1, rtt := now - ts, lastResp := some now }
 
 structure Pending where
   tid : Nat
@@ -156,6 +169,9 @@ structure Config where
   useCandCheckPriority : Bool := false
   /-- remote IP filter: ip ids (`addr / 16`) it rejects -/
   blockedIPs : List Nat := []
+  /-- `WithAutomaticRenomination(interval)`: `automaticRenomination`, `renominationInterval` (ns; 0 keeps the default 3 s) -/
+  autoRenom : Bool := false
+  renomInterval : Nat := 3000000000
   deriving Repr, Inhabited
 
 structure Agent where
@@ -200,7 +216,14 @@ structure Agent where
   onConnectedFired : Bool := false
   -- ghost
   generation : Nat := 0
-  nomIssued : List Nat := []
+  /-- the nominations this agent issued, oldest first — `RenominateCandidate` not refused AND the automatic check —, each
+  with its value (0 = sent without the attribute) and the local / remote transport address of its pair -/
+  nomIssued : List (Nat × Nat × Nat) := []
+  /-- `lastRenominationTime` (an Agent field: survives Restart and role changes; `none` = the zero time) -/
+  lastRenomTime : Option Nat := none
+  /-- state of the nomination-value generator handed to `WithRenomination` when it is a counter (the harness's, and
+  `DefaultNominationValueGenerator`): the number of values drawn so far; the next value is `nomCounter + 1` (uint32) -/
+  nomCounter : Nat := 0
   deriving Repr, Inhabited
 
 inductive Out where
@@ -399,6 +422,126 @@ def Agent.keepalive (a : Agent) (now : Nat) : Agent × List Out :=
       | _, _ => (a, [])
     else (a, [])
 
+/-! ## Automatic renomination (`WithAutomaticRenomination`) -/
+
+open IceModel.SoftFloat in
+/-- type preference of `evaluateCandidatePairQuality`: host 100, srflx 50, prflx 30, relay 10 -/
+def typeScore (ty : Nat) : F :=
+  if ty == 1 then { m := 100, e := 0 } else if ty == 2 then { m := 50, e := 0 }
+  else if ty == 3 then { m := 30, e := 0 } else if ty == 4 then { m := 10, e := 0 } else F.zero
+
+def Agent.localTy (a : Agent) (p : Pair) : Nat := ((a.localOf p.l).map (·.ty)).getD 0
+def Agent.remoteTy (a : Agent) (p : Pair) : Nat := ((a.remoteOf p.r).map (·.ty)).getD 0
+
+open IceModel.SoftFloat in
+/-- `evaluateCandidatePairQuality` at virtual time `now` (float64, see `IceModel.SoftFloat`): 0 for a pair that has not
+succeeded; else the mean of the two type preferences, minus `10·log10(rtt in whole ms, at least 1)` (30 when no round
+trip has been measured), plus 20 when a response arrived less than 5 s ago. -/
+def Agent.quality (a : Agent) (now : Nat) (p : Pair) : F :=
+  if p.state != .succeeded then F.zero else
+  let score := F.zero.add (((typeScore (a.localTy p)).add (typeScore (a.remoteTy p))).div two)
+  let rtt := seconds p.rtt
+  let score :=
+    if rtt.gt F.zero then
+      let rttMs0 := F.ofInt (durationOfSeconds rtt / 1000000)
+      let rttMs := if rttMs0.lt one then one else rttMs0
+      score.sub ((log10 rttMs).mul ten)
+    else score.sub thirty
+  if p.respRecv > 0 then
+    match p.lastResp with
+    | some t => if now - t < 5000000000 then score.add twenty else score
+    | none => score
+  else score
+
+/-- `findBestCandidatePair`: the succeeded pair of the greatest quality, the first one among equals -/
+def Agent.findBest (a : Agent) (now : Nat) : Option Pair :=
+  a.checklist.foldl (fun best p =>
+    if p.state != .succeeded then best else
+    match best with
+    | none => some p
+    | some b => if (a.quality now p).gt (a.quality now b) then some p else some b) none
+
+/-- `CandidatePair.equal`: both ends `Equal` -/
+def Agent.pairEqual (a : Agent) (p q : Pair) : Bool :=
+  match a.localOf p.l, a.remoteOf p.r, a.localOf q.l, a.remoteOf q.r with
+  | some pl, some pr, some ql, some qr => pl.equal ql && pr.equal qr
+  | _, _, _, _ => false
+
+open IceModel.SoftFloat in
+/-- `Agent.shouldRenominate(current, candidate)` at virtual time `now`. -/
+def Agent.shouldRenominate (a : Agent) (now : Nat) (cur cand : Pair) : Bool :=
+  if a.pairEqual cur cand || cand.state != .succeeded then false
+  -- relay → direct
+  else if (a.localTy cur == 4 || a.remoteTy cur == 4) && (a.localTy cand == 1 && a.remoteTy cand == 1) then true
+  else
+    let curRTT := seconds cur.rtt
+    let candRTT := seconds cand.rtt
+    -- the round trip improves by more than 10 ms (both measured)
+    if curRTT.gt F.zero && candRTT.gt F.zero && durationOfSeconds curRTT - durationOfSeconds candRTT > 10000000 then true
+    -- the quality improves by more than 15 %
+    else (a.quality now cand).gt ((a.quality now cur).mul c115)
+
+/-- `keepAliveCandidatesForRenomination`: every pair that has not failed is pinged (a waiting pair becomes in-progress);
+neither `bindingRequestCount` nor `maxBindingRequests` plays a role. -/
+def Agent.keepAliveAll (a : Agent) (now : Nat) : Agent × List Out :=
+  (a.checklist.map (·.id)).foldl (fun (acc : Agent × List Out) id =>
+    let (a, o) := acc
+    match a.pairById id with
+    | none => (a, o)
+    | some p =>
+      if p.state == .failed then (a, o) else
+      let a := if p.state == .waiting then a.modPair id fun q => { q with state := .inProgress } else a
+      match a.localOf p.l, a.remoteOf p.r with
+      | some l, some r =>
+        let (a, o') := a.ping now l r
+        (a, o ++ o')
+      | _, _ => (a, o)) (a, [])
+
+/-- `getNominationValue()` with a counter generator: the next value (uint32 wrap-around) -/
+def Agent.nextNomValue (a : Agent) : Nat := (a.nomCounter + 1) % 4294967296
+
+/-- `renominateCandidate(local, remote)` as the automatic check calls it (an error is only logged): the value comes from
+the generator, `sendNominationRequest` attaches it when it is > 0. -/
+def Agent.autoIssue (a : Agent) (now : Nat) (l r : Cand) : Agent × List Out :=
+  if !a.controlling then (a, [])
+  else if !a.cfg.enableRenomination then (a, [])
+  else
+    match a.findPair l r with
+    | none => (a, [])
+    | some _ =>
+      let v := a.nextNomValue
+      let a := { a with nomCounter := a.nomCounter + 1 }
+      let (a, o) := a.sendRequest now l r true (if v > 0 then some v else none)
+      ({ a with nomIssued := a.nomIssued ++ [(v, l.addr, r.addr)] }, o)
+
+/-- the gate of `checkForAutomaticRenomination`: both options on, the interval has passed since the selector started and
+since the last automatic renomination -/
+def Agent.autoDue (a : Agent) (now : Nat) : Bool :=
+  a.cfg.autoRenom && a.cfg.enableRenomination && !(now - a.selStart < a.cfg.renomInterval) &&
+  !(match a.lastRenomTime with | some t => now - t < a.cfg.renomInterval | none => false)
+
+/-- `checkForAutomaticRenomination`. -/
+def Agent.autoCheck (a : Agent) (now : Nat) : Agent × List Out :=
+  if !a.autoDue now then (a, [])
+  else
+    match a.selected.bind a.pairById with
+    | none => (a, [])
+    | some cur =>
+      match a.findBest now with
+      | none => (a, [])
+      | some best =>
+        if a.shouldRenominate now cur best then
+          match a.localOf best.l, a.remoteOf best.r with
+          | some l, some r => ({ a with lastRenomTime := some now }).autoIssue now l r
+          | _, _ => ({ a with lastRenomTime := some now }, [])
+        else (a, [])
+
+/-- what `controllingSelector.ContactCandidates` does after `checkKeepalive` while a pair is selected -/
+def Agent.autoRenom (a : Agent) (now : Nat) : Agent × List Out :=
+  let (a, o) := if a.cfg.autoRenom && a.cfg.enableRenomination then a.keepAliveAll now else (a, [])
+  let (a, o') := a.autoCheck now
+  (a, o ++ o')
+
 def Config.waitFor (cfg : Config) (ty : Nat) : Option Nat :=
   if ty == 1 then some cfg.hostWait else if ty == 2 then some cfg.srflxWait
   else if ty == 3 then some cfg.prflxWait else if ty == 4 then some cfg.relayWait else none
@@ -421,7 +564,7 @@ def Agent.contactCandidates (a : Agent) (now : Nat) : Agent × List Out :=
     -- controllingSelector (a lite controlling agent falls back to this too)
     if a.selected.isSome then
       let (a, o, ok) := a.validateSelected now
-      if ok then let (a, o') := a.keepalive now; (a, o ++ o') else (a, o)
+      if ok then let (a, o') := a.keepalive now; let (a, o'') := a.autoRenom now; (a, o ++ o' ++ o'') else (a, o)
     else match a.nominatedPair.bind a.pairById with
     | some p => a.nominate now p
     | none =>
@@ -629,7 +772,8 @@ def Agent.handleSuccess (a : Agent) (now : Nat) (m : Msg) (l r : Cand) (src : Na
               -- the deferred nomination has been acted upon: a later response on this pair must not replay it
               (a.modPair p.id fun p => { p with nomOnSuccess := false, deferredNom := none }, o)
             else (a, [])
-        (a.modPair p.id fun p => { p with respRecv := p.respRecv + 1 }, o)
+        -- `pair.UpdateRoundTripTime(rtt)`: rtt = `time.Since(pendingRequest.timestamp)`
+        (a.modPair p.id (Pair.gotResponse now pd.ts), o)
 
 /-- `controllingSelector.HandleBindingRequest`. -/
 def Agent.ctlHandleRequest (a : Agent) (now : Nat) (m : Msg) (l r : Cand) : Agent × List Out :=
@@ -908,7 +1052,7 @@ def step (a : Agent) : Ev → Agent × List Out
         | some _ =>
           let nom := if value > 0 then some value else none
           let (a, o) := a.sendRequest now l r true nom
-          ({ a with nomIssued := a.nomIssued ++ [value] }, o ++ [.res "ok"])
+          ({ a with nomIssued := a.nomIssued ++ [(value, l.addr, r.addr)] }, o ++ [.res "ok"])
       | _, _ => (a, [.res "err:notfound"])
   | .restart now ufrag pwd =>
     if a.closed then (a, [.res "err:closed"]) else
